@@ -100,6 +100,18 @@ func (p *C16) Gen(seed uint64, i int, tier string) *scen.Scenario {
 		op.Opts = append(op.Opts, scen.Op{Kind: "utc", B: []bool{true}})
 	}
 	sc.Setup = append(sc.Setup, op)
+	useHandler := r.Chance(1, 3)
+	if useHandler {
+		// a log/slog handler on the logger, configured so that the logger keeps the format chosen above
+		h := scen.Op{Op: "slog_handler", L: 1, R: 1}
+		switch format {
+		case "json":
+			h.S = []string{"json", "nocolor"}
+		case "logfmt":
+			h.S = []string{"nocolor"}
+		}
+		sc.Setup = append(sc.Setup, h)
+	}
 	n := r.Range(3, 10)
 	for k := 0; k < n; k++ {
 		t := tok(k + 1)
@@ -131,6 +143,19 @@ func (p *C16) Gen(seed uint64, i int, tier string) *scen.Scenario {
 				ts.S = -62135596800 + 86400 + int64(r.Intn(900*365*86400)) // years 0001..0900
 			case 2:
 				ts.Ns = int64(r.Intn(1000)) * 1000
+			}
+			switch r.Intn(12) {
+			case 0:
+				ts.S, ts.Ns = -62135596800, 0 // 0001-01-01T00:00:00Z exactly (the zero time.Time)
+			case 1:
+				ts.S, ts.Ns = 0, 0 // the Unix epoch
+			case 2:
+				ts.S, ts.Ns = 253402300799, 999999999 // the last instant of year 9999
+			}
+			if useHandler && r.Bool() {
+				// an explicit slog.Record handed to Enabled+Handle (level Info..Error so that it is admitted)
+				sc.Setup = append(sc.Setup, scen.Op{Op: "handler_handle", L: 1, Lvl: scen.Pick(r, []int{0, 4, 8}), T: ts, Msg: "m" + t, Tok: t, Probe: true, Kind: "force"})
+				continue
 			}
 			sc.Setup = append(sc.Setup, scen.Op{Op: "write_thru", L: 1, Lvl: 4, T: ts, Msg: "m" + t, Tok: t, Probe: true})
 			if r.Chance(1, 3) {
@@ -218,7 +243,7 @@ func (p *C16) Check(sc *scen.Scenario, run *orch.Run, env *orch.Env) []orch.Viol
 			if op.L == 1 {
 				apply(op)
 			}
-		case "log", "write_thru":
+		case "log", "write_thru", "handler_handle":
 			if !op.Probe {
 				continue
 			}
@@ -228,8 +253,11 @@ func (p *C16) Check(sc *scen.Scenario, run *orch.Run, env *orch.Env) []orch.Viol
 			}
 			var inst time.Time
 			entry := op.Entry
-			if op.Op == "write_thru" {
+			if op.Op == "write_thru" || op.Op == "handler_handle" {
 				entry = "WriteThru"
+				if op.Op == "handler_handle" {
+					entry = "slog.Handler.Handle"
+				}
 				inst = time.Unix(op.T.S, op.T.Ns).In(c16Zone(op.T.Zone))
 			} else {
 				if len(o.Clocks) != 1 {
@@ -313,8 +341,8 @@ func (p *C16) Classify(sc *scen.Scenario, run *orch.Run) (string, bool) {
 			fmt.Fprintf(&sb, "set%s%v%v;", op.Kind, op.B, op.S)
 		case "log":
 			sb.WriteString(op.Entry + ";")
-		case "write_thru":
-			sb.WriteString("wt" + op.T.Zone + ";")
+		case "write_thru", "handler_handle":
+			sb.WriteString(op.Op[:2] + op.T.Zone + ";")
 		}
 	}
 	z := sc.World.Clock.Zone
